@@ -463,6 +463,9 @@ class PETScDirectSolver(DirectSolver):
 
                 x_vec[:] = sol_array
 
+            # the solution is cached with the scaled rhs, so cache it in the scaled state too
+            sol_array = x_vec
+
         # matrix-vector-product generated jacobians are scaled.
         else:
             x_vec[:] = sol_array = self._lup.solve(b_vec, transpose=transpose)
